@@ -528,7 +528,7 @@ spifconf_shell_expand(spif_charptr_t s)
               D_CONF(("Tilde detected.\n"));
               EnvVar = (spif_charptr_t) getenv("HOME");
               if (!in_single && !in_double && EnvVar && *EnvVar) {
-                  spiftool_safe_strncpy(newbuff + j, EnvVar, max - j);
+                  spiftool_safe_strncpy(newbuff + j, EnvVar, max - j + 1);
                   cnt1 = strlen((char *) EnvVar) - 1;
                   cnt2 = max - j - 1;
                   j += MIN(cnt1, cnt2);
@@ -626,7 +626,7 @@ spifconf_shell_expand(spif_charptr_t s)
                   FREE(Command);
                   if (Output) {
                       if (*Output) {
-                          spiftool_safe_strncpy(newbuff + j, Output, max - j);
+                          spiftool_safe_strncpy(newbuff + j, Output, max - j + 1);
                           l = strlen((char *) Output) - 1;
                           cnt2 = max - j - 1;
                           j += MIN(l, cnt2);
@@ -656,7 +656,7 @@ spifconf_shell_expand(spif_charptr_t s)
                   FREE(Command);
                   if (Output) {
                       if (*Output) {
-                          spiftool_safe_strncpy(newbuff + j, Output, max - j);
+                          spiftool_safe_strncpy(newbuff + j, Output, max - j + 1);
                           l = strlen((char *) Output) - 1;
                           cnt2 = max - j - 1;
                           j += MIN(l, cnt2);
@@ -701,7 +701,7 @@ spifconf_shell_expand(spif_charptr_t s)
                   tmp = (spif_charptr_t) getenv((char *) EnvVar);
                   FREE(EnvVar);
                   if (tmp && *tmp) {
-                      spiftool_safe_strncpy(newbuff + j, tmp, max - j);
+                      spiftool_safe_strncpy(newbuff + j, tmp, max - j + 1);
                       cnt1 = strlen((char *) tmp) - 1;
                       cnt2 = max - j - 1;
                       j += MIN(cnt1, cnt2);
